@@ -8,7 +8,7 @@ and chain checking."""
 import json, os, concurrent.futures as cf
 from vlib.common import *
 
-NEG = ["PayloadUnchecked", "SigValueUnchecked", "AppendIgnored"]
+NEG = ["PayloadUnchecked", "SigValueUnchecked", "AppendIgnored", "MetadataUnchecked"]
 
 
 def run(t):
